@@ -305,6 +305,24 @@ def _addsub_spec(sign):
                 if kind == "value":
                     exact = amount(h, self.t) + sign * payload
                     ctx.axiom(q_round_facts(h, exact, u1))
+                    has1, qu1 = unit_quantum(h, u1)
+                    if name == "same-unit":
+                        ctx.axiom(grid_sum_facts(amount(h, self.t), payload,
+                                                 sign, qu1),
+                                  "A3: ground instances of lemma field/"
+                                  "cancel-common-factor and of the definition "
+                                  "of the ghost witness grid_k")
+
+                    def exact_on_grid(c, o, exact=exact, payload=payload,
+                                      has1=has1, qu1=qu1):
+                        a1 = amount(c.pre, self.t)
+                        return qty_result(o, lambda q, ph: z3.Implies(
+                            z3.And(has1, qu1 > 0, grid_w(a1, qu1),
+                                   grid_w(payload, qu1)),
+                            z3.And(amount(ph, q) == exact,
+                                   grid_k(exact, qu1) == grid_k(a1, qu1) +
+                                   sign * grid_k(payload, qu1),
+                                   grid_w(exact, qu1))))
 
                     def build(c, exact=exact):
                         return new_qty(c, cls_of(c.pre, self.t),
@@ -326,7 +344,9 @@ def _addsub_spec(sign):
                                 o, lambda q, ph: exact_tag(amount_tag(ph, q)))),
                             ("fresh", lambda c, o: qty_result(
                                 o, lambda q, ph: fresh_in(c, ph, q))),
-                        ], result=build, props=["C03", "C05"]))
+                        ] + ([("multiples-of-the-quantum-add-exactly",
+                               exact_on_grid)] if name == "same-unit" else []),
+                        result=build, props=["C03", "C05"]))
                 elif kind == "none":
                     cases.append(Case(name, w, raises="UnitConversionError",
                                       props=["C08", "C14"]))
